@@ -218,12 +218,27 @@ def run(prop, seed, budget, ctx):
         hide = lambda: (_dz(_Conv(lambda i: RLk(None), source=int, target=RLk)), _sz(_Conv(lambda l: 0, source=RLk, target=int)))
         show = lambda: (_rd(RLk), _rs(RLk))
         steps = [hide, show] if hidden_first else [show, hide, show]
-        for st in steps:
+        def twin(tag, hidden):
+            # brand-new classes of the same shape, brought directly to the current configuration: what a process that never
+            # saw the earlier configuration computes (a memo kept outside the lru caches survives the forked cold start)
+            ns2 = {}
+            exec("from dataclasses import dataclass, field\nfrom typing import *\n"
+                 f"@dataclass\nclass RL{tag}:\n    node: Optional['RN{tag}'] = None\n\n@dataclass\nclass RN{tag}:\n    links: List[RL{tag}] = field(default_factory=list)\n", ns2)
+            RL2, RN2 = ns2[f"RL{tag}"], ns2[f"RN{tag}"]
+            RL2.__annotations__["node"] = Optional[RN2]; RL2.__dataclass_fields__["node"].type = Optional[RN2]
+            if hidden: _dz(_Conv(lambda i: RL2(None), source=int, target=RL2)); _sz(_Conv(lambda l: 0, source=RL2, target=int))
+            return {"deser": lambda: _des(RN2, {"links": [{"node": {"links": []}}]}), "ser": lambda: _ser(RN2, RN2([RL2(RN2([]))]))}
+        import re as _re
+        norm = lambda o: (o[0], _re.sub(r"R([NL])\w+?\(", r"R\1(", o[1]))
+        for si, st in enumerate(steps):
             st()
+            tw = twin(f"{k}t{si}", st is hide)
             for oname, ofn in obs.items():
                 evaluations += 1; hist["recursion-status-history"] += 1
                 a = outcome(ofn); f = fresh(ofn)
-                if a != f:
+                t2 = outcome(tw[oname])
+                if a == f and norm(a) != norm(t2): f = t2        # the forked child inherited a stale memo: the twin is the reference
+                if norm(a) != norm(f):
                     failures.append({"kind": "P", "mode": "recursion-status", "point": ["CacheAwareDict", "__delitem__"], "observation": oname + " of a class recursive through a convertible class",
                                      "history": ["converter registered (cycle hidden)", "first use", "converter removed", "use"] if hidden_first else ["use", "converter registered", "use", "converter removed", "use"],
                                      "cached": list(a), "cold_start": list(f), "k_ok": True, "why": ["stale-recursion-analysis-after-a-registry-change"]})
